@@ -238,8 +238,10 @@ def classify(hist, m, initres):
             base = "define accepted " + ("self-loop" if selfloop else "cycle")
             if not selfloop and not same_type_cycle(hist, step, initres):
                 # the new edge closes a cycle only together with edges of another
-                # relationship type: that the code refuses those is pinned beyond C16
-                base, verdict = "define accepted cross-type-cycle", False
+                # relationship type. C16 speaks of THE resource relationship graph (one graph
+                # over every relationship type, which is also what retrieveDescendants walks),
+                # so an accepted cross-type cycle leaves that graph cyclic: a violation
+                base = "define accepted cross-type-cycle"
         elif act == "ok" and exp == "notfound":
             base = "define accepted missing-endpoint"
         else:
